@@ -331,8 +331,10 @@ def check_C08(run, replay):
                        "comparison tolerance 1e-10 relative"]
     if replay:
         d = replay_case(replay)
-        kind = d.get("part", "step")
-        cases, rows = oracle_cases(run, "MC_CfrStep", "step", "step", 0, "step", replay=d["case"])
+        if "state" in d["case"]:
+            cases, rows = oracle_cases(run, "MC_CfrStep", "step", "step", 0, "step", replay=d["case"])
+        else:
+            cases, rows = oracle_cases(run, "MC_CfrRun", "run", "run", 0, "run", replay=d["case"])
         absorb(run, rows, cases, mismatch_sig("cfr"))
         return
     n = 1500 if run.tier == "quick" else 20000
@@ -344,3 +346,8 @@ def check_C08(run, replay):
     run.notes["regret_matching_branches_exercised"] = kinds
     run.notes["step_classes"] = class_counts(rows)
     absorb(run, rows, cases, mismatch_sig("cfr"))
+    # glue: exact trajectories T = 0..3 from the documented initial state through the public api
+    n = 600 if run.tier == "quick" else 8000
+    cases, rows = oracle_cases(run, "MC_CfrRun", "run", "run", n, "run")
+    run.notes["run_classes"] = class_counts(rows)
+    absorb(run, rows, cases, mismatch_sig("cfr-run"))
